@@ -101,8 +101,43 @@ def gate_scenario(e, cfg):
     return dict(loaded=loaded)
 
 
+def version_sweep():
+    """Concrete boundary sweep with real dataset_info.json files: components around the running version and with more
+    digits (9/10/11/99/100), so that a comparison that is not numeric (strings, floats) is noticed too."""
+    import semver
+    import sedpack
+    import sedpack.io.dataset_base as DB
+    cur = semver.Version.parse(sedpack.__version__)
+    base = (cur.major, cur.minor, cur.patch)
+    cands = set()
+    for i in range(3):
+        for v in {max(base[i] - 1, 0), base[i], base[i] + 1, 9, 10, 11, 99, 100, base[i] * 10, base[i] * 10 + 1}:
+            t = list(base)
+            t[i] = v
+            cands.add(tuple(t))
+            t2 = [0, 0, 0]
+            t2[i] = v
+            cands.add(tuple(t2))
+    problems = []
+    with common.scratch_dir("vt20v_") as tmp:
+        d = fillerlab.make_dataset(tmp / "ds")
+        p = d.path / "dataset_info.json"
+        doc = json.loads(p.read_text())
+        for t in sorted(cands):
+            doc["metadata"]["sedpack_version"] = "%d.%d.%d" % t
+            p.write_text(json.dumps(doc))
+            try:
+                DB.DatasetBase._load(d.path)
+                refused = False
+            except ValueError:
+                refused = True
+            if refused != (t > base):
+                problems.append(f"dataset recorded by version {'%d.%d.%d' % t}, running {cur}: refused={refused} but newer={t > base}")
+    return problems
+
+
 # ---- relocation --------------------------------------------------------------------------------
-TARGETS = ["moved", "deep/er/nested", "mit blank", "ünï-çødé-データ", "rel:sub/dir", "copy:cp"]
+TARGETS = ["moved", "deep/er/nested", "mit blank", "ünï-çødé-データ", "rel:sub/dir", "copy:cp", "relup:../elsewhere/up there"]
 
 
 def _fingerprint(d):
@@ -135,6 +170,8 @@ def relocation_case(target):
             if "ORIGINTOKEN" in p.read_text():
                 problems.append(f"{p.relative_to(origin)} stores a component of the dataset's absolute location")
         mode, _, name = target.rpartition(":")
+        if mode == "relup":
+            name = name.split("/", 2)[2]
         dest = tmp / "elsewhere" / name
         dest.parent.mkdir(parents=True, exist_ok=True)
         if mode == "copy":
@@ -146,6 +183,10 @@ def relocation_case(target):
             if mode == "rel":
                 os.chdir(tmp / "elsewhere")
                 open_path = Path(name)
+            elif mode == "relup":
+                (tmp / "workdir" / "below").mkdir(parents=True)
+                os.chdir(tmp / "workdir" / "below")
+                open_path = Path("..") / ".." / "elsewhere" / name  # reached through a relative path that climbs up
             else:
                 open_path = dest
             d2 = Dataset(open_path)
@@ -227,7 +268,7 @@ def run(tier, seed):
             seen.add(sig)
             viols.append(Violation(sig, f"{c['msg']} (model {c['model']})", dict(kind="gate", model=c["model"])))
     # shard-level custom metadata + relocation: finite forks, real code
-    targets = TARGETS if tier == "thorough" else TARGETS[:6]
+    targets = TARGETS
     reloc = {}
     for t in targets:
         pr = relocation_case(t)
@@ -235,6 +276,9 @@ def run(tier, seed):
         if pr:
             viols.append(Violation("C20:relocation", f"relocation to {t!r}: {pr[0]}", dict(kind="relocation", target=t)))
             break
+    vs = version_sweep()
+    if vs:
+        viols.append(Violation("C20:version-gate-concrete", vs[0], dict(kind="version-sweep")))
     rt_bad = []
     rcases = roundtrip_cases()
     for c in rcases:
@@ -274,6 +318,9 @@ def replay(case):
         except CexFound as c:
             return True, f"reproduced with a real dataset_info.json: {c.msg}"
         return False, "real load behaved as expected"
+    if case["kind"] == "version-sweep":
+        pr = version_sweep()
+        return bool(pr), str(pr[:3])
     if case["kind"] == "relocation":
         pr = relocation_case(case["target"])
         return bool(pr), str(pr)
